@@ -253,21 +253,27 @@ def r11_python(chk):
     chk.ob('R11.4', all(re.match(r"^\w+\['%s'\]$" % e, loads.get(e, '')) for e in order), PANEL, 'Panel.stress', 'strain components by name', got=loads)
     am0 = module(ASSEMBLY)
     fn = am0.method('PanelAssembly', 'stress')
-    rows = [st for st in ast.walk(fn) if isinstance(st, ast.Assign) and isinstance(st.targets[0], ast.Subscript) and norm(st.targets[0]).startswith('Ns[...,')]
-    ok = False
-    if len(rows) == 1:
-        iv = norm(rows[0].targets[0])[len('Ns[...,'):-1]
-        try:
-            terms = row_terms(rows[0].value)
-        except Exception:
-            terms = None
-        loop = [l for l in ast.walk(fn) if isinstance(l, ast.For) and rows[0] in l.body]
-        ok = terms is not None and len(terms) == 6 and all(terms[e] in ((iv, str(col)), (str(col), iv)) for col, e in enumerate(order)) \
-            and len(loop) == 1 and norm(loop[0].iter) == 'range(6)' and norm(loop[0].target) == iv
-    chk.ob('R11.4', ok, ASSEMBLY, 'PanelAssembly.stress', 'resultant table', expected='Ns[..., i] = sum_j F[i,j]*strain_j, i in range(6)',
-           got=[norm(r)[:160] for r in rows], sample='PanelAssembly.stress Ns[...,i] = F[i,:].(exx..kxy)')
+    # the table is checked on the unrolled view of the method: one row per index, whether written as a loop or line by line
+    ufn = pyrules.unrolled(fn)
+    rows = {}
+    bad_rows = []
+    for st in ast.walk(ufn):
+        if isinstance(st, ast.Assign) and isinstance(st.targets[0], ast.Subscript) and norm(st.targets[0]).startswith('Ns[...,'):
+            iv = norm(st.targets[0])[len('Ns[...,'):-1]
+            try:
+                terms = row_terms(st.value)
+            except Exception:
+                terms = None
+            if iv.isdigit() and int(iv) not in rows:
+                rows[int(iv)] = terms
+            else:
+                bad_rows.append(norm(st)[:120])
+    ok = not bad_rows and sorted(rows) == list(range(6)) and all(
+        rows[i] is not None and len(rows[i]) == 6 and all(rows[i].get(e) in ((str(i), str(col)), (str(col), str(i))) for col, e in enumerate(order)) for i in range(6))
+    chk.ob('R11.4', ok, ASSEMBLY, 'PanelAssembly.stress', 'resultant table', expected='Ns[..., i] = sum_j F[i,j]*strain_j for i = 0..5',
+           got={i: rows[i] for i in sorted(rows)} if not ok else 'six rows', detail='; '.join(bad_rows), sample='PanelAssembly.stress Ns[...,i] = F[i,:].(exx..kxy)')
     app = {}
-    for c in pyflow.calls_in(fn):
+    for c in pyflow.calls_in(ufn):
         if isinstance(c.func, ast.Attribute) and c.func.attr == 'append' and isinstance(c.func.value, ast.Subscript) and c.args:
             mm = re.match(r'^Ns\[\.\.\.,(\d)\]$', norm(c.args[0]))
             if mm and isinstance(c.func.value.slice, ast.Constant):
